@@ -393,11 +393,15 @@ def gen_spec(rng):
 
     def part():
         seq = "".join(rng.choice("ACGTN") for _ in range(rng.randint(1, 12)))
-        if rng.random() < 0.2:
+        braces = rng.random() < 0.25
+        if braces:
             k = rng.randrange(len(seq))
-            seq = seq[:k + 1] + "{%d}" % rng.randint(0, 4) + seq[k + 1:]
+            seq = seq[:k + 1] + "{%d}" % rng.choice([0, 1, 2, 3, 4, 9, 14]) + seq[k + 1:]
         form = rng.choice(_single_forms(seq)[:7] + [seq] * 4)
         ps = "".join(rng.sample(PARAMS[1:18], rng.choice([0, 0, 1, 1, 2, 3])))
+        if braces and rng.random() < 0.5:
+            # a minimum overlap that only the expanded sequence is long enough for
+            ps += rng.choice([";o=%d", ";min_overlap=%d"]) % rng.choice([5, 8, 11, 14])
         nm = rng.choice(["", "", "abc=", "a b ="])
         return nm + form + ps
     if rng.random() < 0.35:
